@@ -9,15 +9,15 @@
 set -u
 HERE="$(cd "$(dirname "${BASH_SOURCE[0]}")/.." && pwd)"
 P="$1"; V="$2"; EXTRA="${3:-}"
-WT="/tmp/seed-$P"; OUT="/tmp/seed-$P-out/$V"
+R="${ROUND:-}"; WT="/tmp/seed${R}-$P"; OUT="/tmp/seed${R}-$P-out/$V"
 lower="$(echo "$P" | tr 'A-Z' 'a-z')_$(echo "$V" | tr 'A-Z' 'a-z')"
-DEMO="$WT/rust/ommx/tests/seeded_demo_$lower.rs"
+DEMO="$WT/rust/ommx/tests/seeded_demo${R}_$lower.rs"
 cd "$WT" || exit 2
 git checkout -q -- . ; git clean -qfd -e .verif-build -e target
 mkdir -p "$WT/rust/ommx/tests"; cp "$OUT/demo.rs" "$DEMO"
-res_plain="$(cargo test -p ommx --offline --test "seeded_demo_$lower" 2>&1 | grep -E '^test result' | tail -1)"
+res_plain="$(cargo test -p ommx --offline --test "seeded_demo${R}_$lower" 2>&1 | grep -E '^test result' | tail -1)"
 if ! git apply "$OUT/patch.diff"; then echo "SEED $P-$V: patch does not apply"; exit 3; fi
-res_patched="$(cargo test -p ommx --offline --test "seeded_demo_$lower" 2>&1 | grep -E '^test result|error(\[|:)' | tail -1)"
+res_patched="$(cargo test -p ommx --offline --test "seeded_demo${R}_$lower" 2>&1 | grep -E '^test result|error(\[|:)' | tail -1)"
 rm -f "$DEMO"; rmdir "$WT/rust/ommx/tests" 2>/dev/null
 suite="$(cargo nextest run --workspace --no-fail-fast --offline 2>&1 | grep -E 'Summary|error(\[|:)' | tail -1)"
 declare -A det
@@ -27,7 +27,7 @@ for C in $P ${EXTRA//,/ }; do
   det[$C]="rc=$rc $sigs"
 done
 git checkout -q -- . ; git clean -qfd -e .verif-build -e target
-D="$HERE/seeded/$P-$V"; mkdir -p "$D"
+D="$HERE/seeded/$P-${R}$V"; mkdir -p "$D"
 cp "$OUT/patch.diff" "$D/patch.diff"; cp "$OUT/demo.rs" "$D/demo.rs"
 detjson="{"; first=1
 for C in "${!det[@]}"; do [ $first = 1 ] || detjson+=","; first=0; detjson+="\"$C\": $(printf '%s' "${det[$C]}" | python3 -c 'import json,sys; print(json.dumps(sys.stdin.read()))')"; done; detjson+="}"
@@ -42,5 +42,5 @@ m["verified_by_main_session"]={
  "checks_quick_seed1": json.loads(det)}
 json.dump(m,open(dst,"w"),indent=1)
 PY
-echo "SEED $P-$V: demo plain [$res_plain] | patched [$res_patched] | suite [$suite]"
+echo "SEED $P-${R}$V: demo plain [$res_plain] | patched [$res_patched] | suite [$suite]"
 for C in "${!det[@]}"; do echo "   check $C: ${det[$C]}" | cut -c1-400; done
